@@ -76,7 +76,11 @@ func init() {
 			}}
 		}
 		mixed := append(append([]byte{}, seedB...), pubA...) // inconsistent private key: seed of B, public half of A
-		return []hOp{
+		sweep := methodSweepOp("every exported method of PublicKey and PrivateKey", func() ([]interface{}, []interface{}) {
+			kA, kB := ed25519.NewKeyFromSeed(append([]byte{}, seedA...)), ed25519.NewKeyFromSeed(append([]byte{}, seedB...))
+			return []interface{}{kA.Public().(ed25519.PublicKey), kA}, []interface{}{kB.Public().(ed25519.PublicKey), kB, append([]byte{}, m1...), crypto.Hash(0)}
+		})
+		return []hOp{sweep,
 			ver("Verify(A)", pubA, m1, sigA), ver("Verify(B)", pubB, m2, sigB), ver("Verify(B's signature under A)", pubA, m2, sigB),
 			ver("Verify(undecodable key)", bad, m1, sigA), ver("Verify(undecodable R)", pubA, m1, append(append([]byte{}, bad...), sigA[32:]...)),
 			ver("Verify(small-order A and R, S=0)", small[3][:], m1, append(append([]byte{}, small[6][:]...), zeroS...)),
